@@ -1150,6 +1150,23 @@ def roll(a, shift, axis=None):
     return _W(_np.roll(_np.asarray(a), shift, axis))
 
 
+def apply_along_axis(func1d, axis, arr, *a, **k):
+    arr = arr if isinstance(arr, _np.ndarray) else array(arr)
+    if arr.ndim == 1:
+        return func1d(arr, *a, **k)
+    if arr.ndim != 2:
+        raise Unsupported("apply_along_axis on an array with more than two axes")
+    rows = arr if axis in (1, -1) else arr.T
+    res = [func1d(_W(rows[i]), *a, **k) for i in range(rows.shape[0])]
+    if _b.any(isinstance(r, _np.ndarray) for r in res):
+        raise Unsupported("apply_along_axis with a vector-valued function")
+    return array(res)
+
+
+def reciprocal(x, **kw):
+    return 1 / (x if isinstance(x, (SV, _np.ndarray)) else SV.lift(x))
+
+
 def _round_scalar(x, decimals):
     """numpy's round-half-to-even at `decimals` decimals, in exact arithmetic (A1: numpy scales by 10**d in floats)."""
     x = SV.lift(x)
